@@ -7,6 +7,7 @@ independent Gaussians, exp of a Gaussian, truncation bounds, constant -- to real
 on location, scale^2 and support, which are discharged like any other identity.
 Sizes (number of outputs / dimensions / samples) are symbolic.
 """
+import itertools
 import math
 import numpy as np
 import sympy as sp
@@ -584,6 +585,8 @@ COVBASE = {
     'GaussianModel': ('normal', {}),
     'LogNormalModel': ('lognormal', {}),
     'GaussianModel(nc)': ('normal', {'centered': False}),
+    'GaussianModel(2-dim)': ('normal', {'n_dim': 2}),
+    'LogNormalModel(2-dim, nc)': ('lognormal', {'n_dim': 2, 'centered': False}),
 }
 
 
@@ -595,16 +598,19 @@ def covariate_sampler(rec, base):
     chi_sym = loader.load_shadow()
     kind, kw = COVBASE[base]
     cls = base.split('(')[0]
+    d_ = kw.get('n_dim', 1)
+    noncentred = kw.get('centered', True) is False
     q = 'chi._population_models.CovariatePopulationModel.'
     pos = lambda nm: sp.Symbol(nm, positive=True)
-    mu, sg = pos('mu'), pos('sg')
-    b = [[pos('bm0'), pos('bm1')], [pos('bs0'), pos('bs1')]]          # shifts of (location, scale) per covariate
+    mu, sg = [pos('mu%d' % j_) for j_ in range(d_)], [pos('sg%d' % j_) for j_ in range(d_)]
+    # published layout: (location row, scale row) parameter-major, then one coefficient per (selected parameter, covariate)
+    bsel = [[pos('b%d_%d' % (k_, c_)) for c_ in range(2)] for k_ in range(2 * d_)]
     X = [[pos('x%d%d' % (r, c_)) for c_ in range(2)] for r in range(3)]
-    par = np.array([S(v) for v in (mu, sg, b[0][0], b[0][1], b[1][0], b[1][1])], dtype=object)
+    par = np.array([S(v) for v in mu + sg + [v_ for row_ in bsel for v_ in row_]], dtype=object)
 
-    def want(row):
-        loc = mu + b[0][0] * row[0] + b[0][1] * row[1]
-        sc = sg + b[1][0] * row[0] + b[1][1] * row[1]
+    def want(row, j_=0):
+        loc = mu[j_] + bsel[j_][0] * row[0] + bsel[j_][1] * row[1]
+        sc = sg[j_] + bsel[d_ + j_][0] * row[0] + bsel[d_ + j_][1] * row[1]
         return (kind, loc, sc)
 
     def go():
@@ -620,24 +626,24 @@ def covariate_sampler(rec, base):
                 if r[0] != 'ret':
                     return ('refuted', 'symbolic execution', '%s: sampling raises %r%s' % (label, r[1], (' on the path %s' % (c,)) if c else ''))
                 v = r[1]
-                if getattr(v, 'shape', None) != (nsmp, 1):
-                    return ('refuted', 'structural', '%s: sample shape %s, documented (n_samples, n_dim) = %s' % (label, getattr(v, 'shape', None), (nsmp, 1)))
-                if kw:
+                if getattr(v, 'shape', None) != (nsmp, d_):
+                    return ('refuted', 'structural', '%s: sample shape %s, documented (n_samples, n_dim) = %s' % (label, getattr(v, 'shape', None), (nsmp, d_)))
+                if noncentred:
                     m.set_n_ids(nsmp) if hasattr(m, 'set_n_ids') else None
                     ip = explore(lambda: m.compute_individual_parameters(par, v, np.array(cov if np.ndim(cov) == 2 else [cov] * nsmp, dtype=object)), list(c))
                     if [r2[0] for _, r2, _ in ip] != ['ret']:
                         return ('undecided', 'engine', '%s: transform paths %s' % (label, [(r2[0], str(r2[1])[:80]) for _, r2, _ in ip]))
                     v = ip[0][1][1]
-                for k_ in range(nsmp):
-                    e = sym.w(v[k_, 0])
+                for k_, j_ in itertools.product(range(nsmp), range(d_)):
+                    e = sym.w(v[k_, j_])
                     if e.has(sym.UNINIT):
                         return ('refuted', 'symbolic execution', '%s: sample %d is uninitialised memory' % (label, k_))
                     try:
-                        msg = c15.law_matches(e, want(rows[k_]), list(c))
+                        msg = c15.law_matches(e, want(rows[k_], j_), list(c))
                     except Unsupported as ex:
                         msg = 'no recognised law (%s)' % (ex,)
                     if msg:
-                        return ('refuted', 'law algebra', '%s%s: sample %d (covariates %s) has %s' % (label, (' [path %s]' % (c,)) if c else '', k_, rows[k_], msg))
+                        return ('refuted', 'law algebra', '%s%s: sample %d, dimension %d (covariates %s) has %s' % (label, (' [path %s]' % (c,)) if c else '', k_, j_, rows[k_], msg))
                 fail = c16.provenance(v)
                 if fail:
                     return ('refuted', 'ghost provenance', '%s: %s' % (label, fail[1]))
@@ -661,6 +667,23 @@ def native_covariate_sampler(seed_):
     cases = [('first covariate shared, second varies', [[1.0, 30.0], [1.0, 10.0], [1.0, 20.0], [1.0, 10.0]]),
              ('distinct rows, not ascending', [[3.0, 30.0], [1.0, 10.0], [2.0, 20.0], [1.0, 10.0], [0.5, 40.0]]),
              ('one shared row', [2.0, 25.0])]
+    # two dimensions with different locations and scales (published layout: locations, scales, then the covariate effects)
+    for cls, kw in (('GaussianModel', {'n_dim': 2}), ('LogNormalModel', {'n_dim': 2, 'centered': False})):
+        try:
+            m = real.CovariatePopulationModel(getattr(real, cls)(**kw), real.LinearCovariateModel(n_cov=1))
+            par = np.array([1.0, 3.0, 0.01, 0.02, 0.5, 0.0, 0.0, 0.0])
+            cov = np.array([[2.0], [4.0], [2.0]])
+            smp = np.asarray(m.sample(par, cov, n_samples=3, seed=int(seed_) + 4), dtype=float)
+            if kw.get('centered', True) is False:
+                m.set_n_ids(3)
+                smp = np.asarray(m.compute_individual_parameters(par, smp, cov), dtype=float)
+            val = np.log(smp) if cls == 'LogNormalModel' and np.all(smp > 0) else smp
+            want_ = np.array([[1.0 + 0.5 * c_[0], 3.0] for c_ in cov])
+            if val.shape != want_.shape or not np.all(np.abs(val - want_) < 0.15):
+                return {'what': '%s(%s): samples %s for covariates %s; the documented locations per dimension are %s (scales 0.01, 0.02)' % (cls, kw, np.round(val, 3).tolist(), cov[:, 0].tolist(), want_.tolist()),
+                        'expected': want_.tolist(), 'observed': val.tolist()}
+        except Exception as ex:
+            return {'what': '%s(%s): sampling raises %r' % (cls, kw, ex), 'expected': 'samples', 'observed': repr(ex)}
     for cls, kw in (('GaussianModel', {}), ('LogNormalModel', {}), ('GaussianModel', {'centered': False})):
         for label, cov in cases:
             m = real.CovariatePopulationModel(getattr(real, cls)(**kw), real.LinearCovariateModel(n_cov=2))
